@@ -1046,7 +1046,8 @@ def gen_item(rel, kind, name, extra=''):
             depth += 1
         elif t.kind == 'punct' and t.text in ')]}':
             depth -= 1
-        if not (depth == 0 and t.kind == 'ident' and t.text == kind and idx + 1 < len(s)
+        # a const may be an ASSOCIATED const (inside `impl X {`, bracket depth 1); structs only at depth 0
+        if not (depth <= (1 if kind == 'const' else 0) and t.kind == 'ident' and t.text == kind and idx + 1 < len(s)
                 and toks[s[idx + 1]].kind == 'ident' and toks[s[idx + 1]].text == name):
             continue
         j, d2 = idx + 2, 0          # end of the item: `;` or the `{..}` group at bracket depth 0
